@@ -49,7 +49,7 @@ META = {
                   "step by step on da.store (all for the small calls, sampled for the others). Every chunking x region offset / "
                   "step / padding of sources up to (2,3) (quick) / (3,3),(2,2,2) (thorough) is replayed; recorded traces of "
                   "random calls on the synchronous and threaded schedulers are decided by TLC. npy stack: every chunking x axis "
-                  "of shapes with extents <= 5 (1-d) / <= 3 (2-d, 3-d).",
+                  "of the shapes (1..5), (2,3), (3,2), (3,3), (2,2,2) (quick) plus (5,2), (2,5), (4,3), (3,2,3), (2,3,3) (thorough).",
     "level_note": "Trusted: TLC, the instrumented target / lock (positions via an index grid), NumPy assignment as reference guard. "
                   "The property is judged cell by cell (how many __setitem__ calls dask uses is free). lock=True builds dask's own "
                   "lock, which is not observed: only its effect (no two writes in flight) is. Not decided: the multiprocessing and "
@@ -914,7 +914,8 @@ def collect(behs, gitems, nitems, sitems, violation, count, procs=None):
     recs = []
     t0 = time.time()
     tagged = [("b", x) for x in behs] + [("g", x) for x in gitems] + [("n", x) for x in nitems] + [("s", x) for x in sitems]
-    results = pmap(_any_work, tagged, procs=procs, chunk=16, always=True)
+    procs = procs or min(int(os.environ.get("VERIF_PROCS", "14")), 4)       # (measured: more workers do not help, see notes)
+    results = pmap(_any_work, tagged, procs=max(2, procs), chunk=32, always=True)
     if os.environ.get("VERIF_DEBUG"):
         print("  [%d behaviours, %d geometry cases, %d npy cases, %d random calls: %.1fs]"
               % (len(behs), len(gitems), len(nitems), len(sitems), time.time() - t0), flush=True)
@@ -989,6 +990,9 @@ def sizes(ctx):
 
 
 def run(ctx):
+    import gc
+    gc.collect()
+    gc.freeze()        # forked workers must not copy the whole heap on their first collection
     calls = MENU if ctx.quick else MENU + MENU_T
     design = [(c, lm, sm) for c in range(1, len(calls) + 1) for lm in ("none", "auto", "user") for sm in SMODES]
     export = export_triples(calls, ctx.quick)
@@ -1120,11 +1124,11 @@ def selftest(ctx):
                              plan("npy", [(3,), (2, 3)])]) + "}"
     behs, gcases, ncases = explore(ctx, calls, None, triples, plans)
     rng = random.Random(11)
-    behs = rng.sample(behs, min(len(behs), 24))
-    gcases = rng.sample(gcases, min(len(gcases), 30))
+    behs = rng.sample(behs, min(len(behs), 16))
+    gcases = rng.sample(gcases, min(len(gcases), 20))
     gitems = [(c["c"], c["e"], rng.randrange(168), "g%d" % i) for i, c in enumerate(gcases)]
     nitems = [(c["c"], c["e"], rng.randrange(60), "n%d" % i, ctx.scratch) for i, c in enumerate(ncases)]
-    sitems = [it for it in gen_items(rng, 90, "s") if not dup_pairs(it["call"])][:40]
+    sitems = [it for it in gen_items(rng, 90, "s") if not dup_pairs(it["call"])][:30]
 
     def attempt(tag, npy=None):
         out = []
